@@ -108,6 +108,9 @@ class Entering(object):
         return self.cm.__exit__(*exc)
 
 
+_SCP_BOOMS = {}
+
+
 class Boom(Exception):
     def __init__(self, catch_depth):
         Exception.__init__(self, "injected body failure")
@@ -773,14 +776,44 @@ class CtxEngine(object):
             elif k == 1:
                 self.do_bmp_call(stack["bmp"])
             elif k == 2 and depth < 4:
-                self.run_block(stack, depth + 1, budget)
+                if t.draw(6) == 0:
+                    # the block is run by the caller's error handling (a
+                    # retry after a failed command): an SCP error is "being
+                    # handled" for as long as the block lasts
+                    self.w.probe("block_inside_except_handler")
+                    self.w.ops.append("%sexcept SCPError:" % ("  " * depth))
+                    try:
+                        raise self.c.scp.TimeoutError("earlier failure")
+                    except self.c.scp.SCPError:
+                        self.run_block(stack, depth + 1, budget)
+                else:
+                    self.run_block(stack, depth + 1, budget)
             elif k == 3:
                 self.do_update(stack)
             elif k == 4 and depth > 0:
                 self.w.probe("exit_by_exception")
                 self.w.fault("exception_in_with_body")
                 self.w.ops.append("raise (caught %d levels up)" % 0)
-                raise Boom(self.t.draw(depth))
+                raise self.make_boom(self.t.draw(depth))
+
+    def make_boom(self, catch_depth):
+        """What leaves the body: the caller's own exception, or one of the
+        library's communication errors (as when a command in the body fails
+        and nobody catches it)."""
+        kind = self.t.weighted([3, 1, 1])
+        if kind == 0:
+            return Boom(catch_depth)
+        base = self.c.scp.TimeoutError if kind == 1 else \
+            self.c.scp.FatalReturnCodeError
+        cls = _SCP_BOOMS.get(base)
+        if cls is None:
+            def init(self_, d):
+                Exception.__init__(self_, "injected SCP failure in the body")
+                self_.catch_depth = d
+            cls = _SCP_BOOMS[base] = type("Boom" + base.__name__,
+                                          (Boom, base), {"__init__": init})
+        self.w.probe("exit_by_scp_error")
+        return cls(catch_depth)
 
     def do_update(self, stack):
         t, w = self.t, self.w
